@@ -529,6 +529,26 @@ def install_clock():
     return CLOCK
 
 
+# configuration of the unexported neighbour: per-accessible export entries (True, custom wire name, False) for parameters
+# and commands must not re-enable anything of a module that is itself not exported
+HIDDEN_CFG = {'export': False, 'hp': {'export': True}, 'target': {'export': 'tx'}, 'hc': {'export': False},
+              'hcmd': {'export': True}, 'go': {'export': 'gox'}}
+
+
+def hidden_names():
+    """every candidate wire name of the unexported neighbour: declared wire name, attribute name, _name, names given in
+    HIDDEN_CFG"""
+    ref = reference(HIDDEN_SHAPE)
+    names = {'param': set(), 'command': set()}
+    for kind, table in (('param', ref['params']), ('command', ref['commands'])):
+        for attr, rec in table.items():
+            names[kind].update({rec['wire'], attr, '_' + attr} - {None})
+            exp = HIDDEN_CFG.get(attr, {}).get('export')
+            if isinstance(exp, str):
+                names[kind].add(exp)
+    return names
+
+
 # a small module configured with export=False next to the module under test
 HIDDEN_SHAPE = {
     'name': 'GH', 'base': 'Drivable', 'features': [],
